@@ -1,332 +1,10 @@
 ------------------------------ MODULE MCPrinter ------------------------------
 (***************************************************************************)
-(* Enumerates printing CASES (entry point, format, operand terms) slice by *)
-(* slice, runs the Printer specification on each, checks the invariants,   *)
-(* and emits case + prediction for replay on the real code.                *)
-(* Two levels (root -> case) so that TLC's workers share the work.         *)
+(* The printer specification on the slices of PSlices with the invariants  *)
+(* of C01/C03 (well-formed, line-safe), restorer discipline, C05, C06,     *)
+(* C11, C15, C17.                                                          *)
 (***************************************************************************)
-EXTENDS Printer, TLC, Json, FiniteSets
-
-CONSTANTS Slice, EmitOn, Routes
-VARIABLES c, lvl
-vars == <<c, lvl>>
-
-Case(e, f, ts, scr) == [e |-> e, f |-> f, ts |-> ts, scr |-> scr]
-NoCase == Case("none", <<>>, <<>>, <<>>)
-
-P(id) == <<PTok + id>>                      \* an opaque non-empty plain payload
-Fv == <<37, 118>>   Fs == <<37, 115>>   Fd == <<37, 100>>   Fw == <<37, 119>>   Fq == <<37, 113>>
-Fx == <<37, 120>>   FT == <<37, 84>>    Fp == <<37, 112>>   FZ == <<37, 90>>
-FplusV == <<37, 43, 118>>   FsharpV == <<37, 35, 118>>   F5v == <<37, 53, 118>>  Fm8d == <<37, 45, 56, 100>>
-LitF(b, f) == b \o f
-A == 97
-
-Obj(id, caps) == TObj(id, caps, <<SSafeString(<<115, 102>>), SUnsafeString(P(id + 50))>>,
-                      <<SWrite(<<102, 109>> \o P(id + 60))>>, P(id + 70), <<>>)
-
----------------------------------------------------------------------------
-\* slice "smoke": hand-picked cases that touch every operator of the model once
-SmokeTerms == {
-  TStr(1, P(1)), TStr(1, <<A, NL, A>>), TStr(1, <<>>), TStr(1, StartM \o <<A>>), TInt(1, 42), TUint(1, 7), TBool(1), TFloat(1), TNil(1),
-  TSafe(2, TStr(1, P(1))), TUnsafe(2, TStr(1, P(1))), TSafe(2, TInt(1, 5)), TUnsafe(2, TInt(1, 5)),
-  TSafe(3, TUnsafe(2, TStr(1, P(1)))), TUnsafe(3, TSafe(2, TStr(1, P(1)))),
-  TRStr(1, <<A>> \o StartM \o <<A>> \o EndM), TUnsafe(2, TRStr(1, <<A>> \o StartM \o <<A>> \o EndM)),
-  TSlice(9, <<TInt(1, 1), TStr(2, P(2)), TNil(3)>>),
-  TSlice(9, <<TSafe(2, TStr(1, P(1))), TUnsafe(4, TInt(3, 3))>>),
-  TSlice(9, <<TRStr(1, StartM \o <<A>> \o EndM)>>),
-  TMap(9, <<TInt(1, 1), TStr(2, P(2)), TInt(3, 2), TSafe(5, TInt(4, 9))>>),
-  TStruct(9, <<TInt(1, 1), TStr(2, P(2))>>, <<FALSE, TRUE>>),
-  TStruct(9, <<TSafe(2, TStr(1, P(1))), TSafe(4, TStr(3, P(3)))>>, <<FALSE, TRUE>>),
-  TStruct(9, <<TNil(1), TUnsafe(3, TInt(2, 2))>>, <<TRUE, FALSE>>),
-  TPtrTo(10, TStruct(9, <<TInt(1, 1)>>, <<FALSE>>)), TPtrTo(10, TSlice(9, <<TStr(1, P(1))>>)), TNilPtr(1),
-  TUnsafe(10, TSlice(9, <<TSafe(2, TStr(1, P(1)))>>)), TSafe(10, TSlice(9, <<TStr(1, P(1)), TInt(2, 2)>>)),
-  Obj(1, {"SF"}), Obj(1, {"SM"}), Obj(1, {"SV"}), Obj(1, {"ER"}), Obj(1, {"FM"}), Obj(1, {"GS"}), Obj(1, {"ST"}), Obj(1, {"REG"}), Obj(1, {}),
-  Obj(1, {"SF", "SM", "ER", "FM", "ST"}), Obj(1, {"SM", "ER", "FM"}), Obj(1, {"ER", "ST", "GS"}), Obj(1, {"ST", "SV"}),
-  Obj(1, {"ST", "NILP"}), Obj(1, {"SF", "NILP"}), Obj(1, {"ER", "REG"}),
-  TUnsafe(2, Obj(1, {"SF", "ST"})), TSafe(2, Obj(1, {"ST"})), TSlice(9, <<Obj(1, {"ER"}), Obj(2, {"SF"})>>),
-  TObj(1, {"ST"}, <<>>, <<>>, <<>>, <<TStr(5, P(5))>>),                      \* String() panics
-  TObj(1, {"SF"}, <<SSafeString(<<A>>), SUnsafeString(P(2)), SPanic(TStr(5, P(5)))>>, <<>>, <<>>, <<>>),
-  TObj(1, {"SF"}, <<SSafeString(<<A>>), SPrint(<<TStr(2, P(2)), TInt(3, 3), TSafe(5, TStr(4, P(4)))>>), SSafeInt(6, 12)>>, <<>>, <<>>, <<>>),
-  TObj(1, {"SF"}, <<SPrintf(<<A>> \o Fv \o Fd, <<TStr(2, P(2)), TInt(3, 3)>>), SWrite(P(7)), SUnsafeRune(8249), SSafeRune(8250), SUnsafeByte(226), SSafeByte(A)>>, <<>>, <<>>, <<>>),
-  TObj(1, {"SF"}, <<SPrint(<<TObj(2, {"ST"}, <<>>, <<>>, <<>>, <<TStr(5, P(5))>>)>>)>>, <<>>, <<>>, <<>>),
-  TObj(1, {"SF"}, <<SSafeString(<<A>>), SPrint(<<TObj(2, {"SF"}, <<SPanic(TStr(5, P(5)))>>, <<>>, <<>>, <<>>)>>)>>, <<>>, <<>>, <<>>),
-  TObj(1, {"ST"}, <<>>, <<>>, <<>>, <<TObj(5, {"ST"}, <<>>, <<>>, <<>>, <<TStr(6, P(6))>>)>>),      \* panic payload panics while printed
-  TUnsafe(3, TObj(1, {"FM"}, <<>>, <<SDiscover, SPrintf(<<A>> \o Fd \o Fs, <<TInt(4, 1), TSafe(6, TStr(5, P(5)))>>)>>, <<>>, <<>>)),   \* F3
-  TObj(1, {"FM"}, <<>>, <<SWrite(P(2)), SDiscover, SSafeString(<<A>>), SPrint(<<TInt(3, 3)>>)>>, <<>>, <<>>)
-}
-SmokeFormats == {Fv, Fs, Fd, FplusV, FsharpV, F5v, FT, Fq, Fw, LitF(<<A, 32>>, Fv) \o <<32, A>>, FZ, Fm8d}
-SmokeRoots == SmokeTerms
-SmokeExpand(t) == {Case("Sprintf", f, <<t>>, <<>>) : f \in SmokeFormats}
-                  \cup {Case("Sprint", <<>>, <<t>>, <<>>), Case("Sprint", <<>>, <<TInt(90, 1), t, TStr(91, P(91)), t>>, <<>>),
-                        Case("Sprintf", Fv, <<t, t>>, <<>>), Case("Sprintf", <<A>>, <<t>>, <<>>), Case("Errorf", Fw \o Fw, <<t, t>>, <<>>),
-                        Case("Errorf", Fw, <<t>>, <<>>), Case("Errorf", <<A>> \o Fv, <<t>>, <<>>)}
-
----------------------------------------------------------------------------
-\* shared vocabulary of the systematic slices
-
-\* leaves with id i (and i+1 for an inner term): what a value can be as far as classification goes
-UStr(i)   == TStr(i, P(i))
-UInt(i)   == TInt(i, 3 + i)
-SVObj(i)  == TObj(i, {"SV"}, <<>>, <<>>, <<>>, <<>>)
-SVStr(i)  == TObj(i, {"SV", "ST"}, <<>>, <<>>, P(i), <<>>)
-RegObj(i) == TObj(i, {"REG"}, <<>>, <<>>, <<>>, <<>>)
-SMObj(i)  == TObj(i, {"SM"}, <<>>, <<>>, P(i), <<>>)
-StObj(i)  == TObj(i, {"ST"}, <<>>, <<>>, P(i), <<>>)
-ErObj(i)  == TObj(i, {"ER"}, <<>>, <<>>, P(i), <<>>)
-SafeStr(i) == TSafe(i, TStr(i + 1, P(i + 1)))
-SafeInt(i) == TSafe(i, TInt(i + 1, 4 + i))
-Leaf(kind, i) == CASE kind = "ustr" -> UStr(i) [] kind = "uint" -> UInt(i) [] kind = "sv" -> SVObj(i)
-                   [] kind = "svstr" -> SVStr(i) [] kind = "reg" -> RegObj(i) [] kind = "sm" -> SMObj(i)
-                   [] kind = "st" -> StObj(i) [] kind = "er" -> ErObj(i) [] kind = "nil" -> TNil(i)
-                   [] kind = "safestr" -> SafeStr(i) [] kind = "safeint" -> SafeInt(i)
-                   [] kind = "bool" -> TBool(i) [] kind = "float" -> TFloat(i)
-LeafKinds  == {"ustr", "uint", "sv", "svstr", "reg", "sm", "st", "er", "nil", "safestr", "safeint", "bool", "float"}
-QLeafKinds == {"ustr", "uint", "sv", "reg", "nil", "safestr", "st"}
-
-\* container shapes around two leaves a (ids 10..) and b (ids 20..); container ids 30..
-Shape(sh, a, b) ==
-  CASE sh = "top"     -> <<a>>
-    [] sh = "two"     -> <<a, b>>
-    [] sh = "slice"   -> <<TSlice(30, <<a, b>>)>>
-    [] sh = "mapval"  -> <<TMap(30, <<TInt(31, 1), a, TInt(32, 2), b>>)>>
-    [] sh = "mapkey"  -> <<TMap(30, <<a, TInt(31, 1)>>)>>
-    [] sh = "structEE" -> <<TStruct(30, <<a, b>>, <<FALSE, FALSE>>)>>
-    [] sh = "structEu" -> <<TStruct(30, <<a, b>>, <<FALSE, TRUE>>)>>
-    [] sh = "ptr"     -> <<TPtrTo(33, TStruct(30, <<a, b>>, <<FALSE, TRUE>>))>>
-    [] sh = "deep"    -> <<TSlice(30, <<TSlice(34, <<a>>), TStruct(35, <<b>>, <<FALSE>>)>>)>>
-    [] sh = "iface"   -> <<TStruct(30, <<TSlice(34, <<a, TNil(36)>>), b>>, <<TRUE, FALSE>>)>>
-Shapes  == {"top", "two", "slice", "mapval", "mapkey", "structEE", "structEu", "ptr", "deep", "iface"}
-QShapes == {"top", "two", "slice", "mapval", "structEu", "deep"}
-
-F6v == <<37, 54, 118>>   Fm6v == <<37, 45, 54, 118>>   F06d == <<37, 48, 54, 100>>  Fx2 == <<37, 120>>
-Around(f) == <<A, 32>> \o f \o <<32, A>>
-TwoFmt(f) == <<120, 61>> \o f \o <<32, 121, 61>> \o f                   \* "x=%v y=%v"
-ClsFormats  == {Fv, FplusV, FsharpV, F6v, Fm6v, Fs, Fd, Fx, Fq, FT}
-QClsFormats == {Fv, FplusV, FsharpV, F6v, Fd}
-
-\* ---- slice "cls" (C05, C02, C16): classification of leaves at top level and inside containers
-ClsRoots == [sh : IF Slice = "cls" THEN Shapes ELSE QShapes, ka : IF Slice = "cls" THEN LeafKinds ELSE QLeafKinds]
-ClsExpand(r) ==
-  LET kinds == IF Slice = "cls" THEN LeafKinds ELSE QLeafKinds
-      fmts  == IF Slice = "cls" THEN ClsFormats ELSE QClsFormats
-      kbs   == IF r.sh \in {"top", "mapkey"} THEN {"nil"} ELSE kinds
-  IN UNION {
-       LET ts == Shape(r.sh, Leaf(r.ka, 10), Leaf(kb, 20)) IN
-         {Case("Sprintf", IF Len(ts) = 2 THEN TwoFmt(f) ELSE Around(f), ts, <<>>) : f \in fmts}
-         \cup {Case("Sprint", <<>>, ts, <<>>)}
-       : kb \in kbs }
-
-\* ---- slice "wrap" (C06): Unsafe(x) / Safe(x) / nestings around every kind of x
-PlainX(i) == {UStr(i), UInt(i), TNil(i), TBool(i), TSlice(i, <<UStr(i + 1), UInt(i + 2)>>),
-              TStruct(i, <<UStr(i + 1), UInt(i + 2)>>, <<FALSE, TRUE>>), TMap(i, <<TInt(i + 1, 1), UStr(i + 2)>>),
-              TPtrTo(i, TStruct(i + 1, <<UInt(i + 2)>>, <<FALSE>>)), StObj(i), ErObj(i),
-              TObj(i, {"GS", "ST"}, <<>>, <<>>, P(i), <<>>), TObj(i, {}, <<>>, <<>>, <<>>, <<>>)}
-\* values with a classification of their own (for the Unsafe side of C06)
-ClassyX(i) == {SVObj(i), SVStr(i), RegObj(i), SMObj(i), SafeStr(i), TRStr(i, <<A>> \o StartM \o <<A + 1>> \o EndM),
-               TSlice(i, <<SafeStr(i + 1), SVObj(i + 3), TRStr(i + 4, StartM \o <<A>> \o EndM)>>),
-               TStruct(i, <<SafeStr(i + 1), RegObj(i + 3)>>, <<FALSE, TRUE>>),
-               TObj(i, {"SF"}, <<SSafeString(P(600)), SUnsafeString(P(700)), SSafeInt(i + 1, 5)>>, <<>>, <<>>, <<>>),
-               TObj(i, {"SF", "ST"}, <<SPrint(<<SafeStr(i + 1), UStr(i + 3)>>), SWrite(P(701))>>, <<>>, P(i), <<>>),
-               TObj(i, {"SF", "FM"}, <<SPrintf(<<A>> \o Fv \o Fd, <<SafeStr(i + 1), UInt(i + 3)>>)>>, <<SWrite(P(702))>>, <<>>, <<>>),
-               TObj(i, {"FM"}, <<>>, <<SWrite(P(702)), SDiscover, SSafeString(P(601)), SUnsafeString(P(703))>>, <<>>, <<>>),
-               TObj(i, {"FM"}, <<>>, <<SDiscover, SPrint(<<SafeStr(i + 1), UStr(i + 3)>>)>>, <<>>, <<>>),               \* F3
-               TObj(i, {"FM"}, <<>>, <<SDiscover, SPrintf(<<A>> \o Fd \o Fs, <<UInt(i + 1), SafeStr(i + 3)>>)>>, <<>>, <<>>), \* F3
-               TObj(i, {"ER", "SV"}, <<>>, <<>>, P(i), <<>>)}
-WrapKinds == {"U", "S", "US", "SU", "UUS", "SSU", "USU", "inU", "inS"}
-Wrapped(w, x) ==
-  CASE w = "U"   -> TUnsafe(51, x)
-    [] w = "S"   -> TSafe(51, x)
-    [] w = "US"  -> TUnsafe(52, TSafe(51, x))
-    [] w = "SU"  -> TSafe(52, TUnsafe(51, x))
-    [] w = "UUS" -> TUnsafe(53, TUnsafe(52, TSafe(51, x)))
-    [] w = "SSU" -> TSafe(53, TSafe(52, TUnsafe(51, x)))
-    [] w = "USU" -> TUnsafe(53, TSafe(52, TUnsafe(51, x)))
-    [] w = "inU" -> TUnsafe(53, TSlice(52, <<x, TSafe(54, TInt(55, 9))>>))
-    [] w = "inS" -> TSafe(53, TSlice(52, <<x, TUnsafe(54, TInt(55, 9))>>))
-WrapFormats == {Fv, Fs, Fd, FplusV, FsharpV, Fq, Fx, F6v, FT}
-WrapRoots == (PlainX(60) \cup ClassyX(60)) \X WrapKinds
-WrapExpand(r) == {Case("Sprintf", Around(f), <<Wrapped(r[2], r[1])>>, <<>>) : f \in WrapFormats}
-                 \cup {Case("Sprint", <<>>, <<Wrapped(r[2], r[1])>>, <<>>)}
-
-\* ---- slice "bytes" (C01, C03): concrete payload bytes in every position that reaches the buffer
-A6 == {226, 128, 185, 186, 97, 10}
-Pay(nmax) == UNION {[1..k -> A6] : k \in 0..nmax}
-BytePos(p, q) == {
-  <<Fv \o Fv, <<TStr(1, p), TStr(2, q)>>>>, <<Fs \o <<A>> \o Fv, <<TStr(1, p), TSafe(3, TStr(2, q))>>>>,
-  <<p \o Fv \o q, <<TStr(1, <<A>>)>>>>, <<p \o Fv \o q, <<TUnsafe(2, TStr(1, <<A>>))>>>>,
-  <<Fv, <<TSlice(3, <<TStr(1, p), TStr(2, q)>>)>>>>,
-  <<Fv, <<TObj(1, {"ST"}, <<>>, <<>>, p, <<>>)>>>>, <<Fv \o Fv, <<TObj(1, {"ER"}, <<>>, <<>>, p, <<>>), TObj(2, {"SM"}, <<>>, <<>>, q, <<>>)>>>>,
-  <<Fv, <<TObj(1, {"SF"}, <<SSafeString(p), SUnsafeString(q), SSafeString(p)>>, <<>>, <<>>, <<>>)>>>>,
-  <<Fv, <<TObj(1, {"SF"}, <<SUnsafeString(p), SWrite(q), SPrint(<<TStr(2, p)>>)>>, <<>>, <<>>, <<>>)>>>>,
-  <<Fv, <<TObj(1, {"FM"}, <<>>, <<SWrite(p), SWrite(q)>>, <<>>, <<>>)>>>>,
-  <<Fv \o q, <<TObj(1, {"ST"}, <<>>, <<>>, <<>>, <<TStr(2, p)>>)>>>>,
-  <<Fd \o q, <<TStr(1, p)>>>>, <<Fv, <<TStr(1, p), TStr(2, q)>>>>,
-  <<Fv, <<TMap(3, <<TStr(1, p), TStr(2, q)>>)>>>>, <<FplusV, <<TStruct(3, <<TStr(1, p), TStr(2, q)>>, <<FALSE, TRUE>>)>>>>,
-  <<Fv \o Fv, <<TRStr(1, StartM \o <<A>> \o EndM), TStr(2, p)>>>>, <<Fv \o Fv, <<TStr(2, p), TRStr(1, StartM \o <<A>> \o EndM \o <<NL>>)>>>>
-}
-BytesRoots == Pay(IF Slice = "bytes" THEN 2 ELSE 1)
-BytesExpand(p) == UNION {{Case("Sprintf", x[1], x[2], <<>>) : x \in BytePos(p, q)} : q \in Pay(IF Slice = "bytes" THEN 2 ELSE 1)}
-
-\* ---- slice "panic" (C11): user methods that panic at every point, every payload kind, every context
-PanPayloads == {TStr(80, P(80)), TInt(80, 8), ErObj(80), TObj(80, {"ST"}, <<>>, <<>>, <<>>, <<TStr(81, P(81))>>),
-                TObj(80, {"SF"}, <<SUnsafeString(P(82))>>, <<>>, <<>>, <<>>), TSafe(83, TStr(80, P(80)))}
-PanObjs(pl) == {
-  TObj(1, {"ST"}, <<>>, <<>>, <<>>, <<pl>>), TObj(1, {"ER"}, <<>>, <<>>, <<>>, <<pl>>), TObj(1, {"GS", "ST"}, <<>>, <<>>, <<>>, <<pl>>),
-  TObj(1, {"SM"}, <<>>, <<>>, <<>>, <<pl>>), TObj(1, {"SV", "ST"}, <<>>, <<>>, <<>>, <<pl>>),
-  TObj(1, {"SF"}, <<SPanic(pl)>>, <<>>, <<>>, <<>>),
-  TObj(1, {"SF"}, <<SSafeString(P(600)), SPanic(pl)>>, <<>>, <<>>, <<>>),
-  TObj(1, {"SF"}, <<SSafeString(P(600)), SUnsafeString(P(700)), SPanic(pl), SSafeString(P(601))>>, <<>>, <<>>, <<>>),
-  TObj(1, {"SF"}, <<SUnsafeString(P(700)), SPrint(<<UStr(2)>>), SPanic(pl)>>, <<>>, <<>>, <<>>),
-  TObj(1, {"SF"}, <<SSafeString(P(600)), SPrint(<<TObj(2, {"SF"}, <<SUnsafeString(P(701)), SPanic(pl)>>, <<>>, <<>>, <<>>)>>), SSafeString(P(601))>>, <<>>, <<>>, <<>>),
-  TObj(1, {"SF"}, <<SPrintf(<<A>> \o Fv, <<TObj(2, {"ST"}, <<>>, <<>>, <<>>, <<pl>>)>>), SSafeString(P(601))>>, <<>>, <<>>, <<>>),
-  TObj(1, {"FM"}, <<>>, <<SWrite(P(702)), SPanic(pl)>>, <<>>, <<>>),
-  TObj(1, {"FM"}, <<>>, <<SDiscover, SSafeString(P(600)), SPanic(pl)>>, <<>>, <<>>),
-  TObj(1, {"ST", "NILP"}, <<>>, <<>>, <<>>, <<>>), TObj(1, {"SF", "NILP"}, <<>>, <<>>, <<>>, <<>>), TObj(1, {"ER", "FM", "NILP"}, <<>>, <<>>, <<>>, <<>>)
-}
-PanCtx(o) == {<<o>>, <<TSafe(90, o)>>, <<TUnsafe(90, o)>>, <<TSlice(91, <<UInt(92), o, UStr(93)>>)>>,
-              <<TStruct(91, <<o, UStr(93)>>, <<FALSE, TRUE>>)>>, <<TStruct(91, <<UStr(93), o>>, <<FALSE, TRUE>>)>>}
-PanicRoots == PanPayloads
-PanicExpand(pl) == UNION {UNION {{Case("Sprintf", Around(f), ts, <<>>) : f \in {Fv, Fd, FsharpV, F6v}}
-                                  \cup {Case("Sprint", <<>>, <<UInt(95)>> \o ts \o <<UStr(96)>>, <<>>)}
-                                 : ts \in PanCtx(o)} : o \in PanObjs(pl)}
-
-\* ---- slice "errorf" (C15): HelperForErrorf with 0..3 %w directives and every operand class
-FwIdx1 == <<37, 91, 49, 93, 119>>   FwIdx2 == <<37, 91, 50, 93, 119>>   F5w == <<37, 53, 119>>
-FplusW == <<37, 43, 119>>           FsharpW == <<37, 35, 119>>          Fcolon == <<58>>
-ErrDirs  == {Fw, Fv, Fd, FwIdx1, FwIdx2, F5w, FplusW, FsharpW}
-ErrDirs2 == {Fw, Fv, FwIdx1, F5w}
-ErrFormats == ErrDirs \cup {x \o Fcolon \o y : x \in ErrDirs, y \in ErrDirs}
-              \cup {x \o Fcolon \o y \o Fcolon \o z : x \in {Fw, Fv}, y \in {Fw, Fv}, z \in {Fw, Fv}}
-QErrFormats == ErrDirs2 \cup {x \o Fcolon \o y : x \in ErrDirs2, y \in ErrDirs2} \cup {Fw \o Fw \o Fw, FsharpW, FplusW}
-ErrOperand(kind, i) ==
-  CASE kind = "er"     -> ErObj(i)
-    [] kind = "erfm"   -> TObj(i, {"ER", "FM"}, <<>>, <<SWrite(P(i + 5))>>, P(i), <<>>)
-    [] kind = "ersf"   -> TObj(i, {"ER", "SF"}, <<SSafeString(P(600 + i)), SUnsafeString(P(700 + i))>>, <<>>, P(i), <<>>)
-    [] kind = "safe"   -> TSafe(i, ErObj(i + 1))
-    [] kind = "unsafe" -> TUnsafe(i, ErObj(i + 1))
-    [] kind = "ernil"  -> TObj(i, {"ER", "NILP"}, <<>>, <<>>, <<>>, <<>>)
-    [] kind = "nil"    -> TNil(i)
-    [] kind = "int"    -> UInt(i)
-    [] kind = "str"    -> UStr(i)
-    [] kind = "st"     -> StObj(i)
-    [] kind = "erpan"  -> TObj(i, {"ER"}, <<>>, <<>>, <<>>, <<TStr(i + 1, P(i + 1))>>)
-ErrKinds  == {"er", "erfm", "ersf", "safe", "unsafe", "ernil", "nil", "int", "str", "st", "erpan"}
-QErrKinds == {"er", "erfm", "safe", "unsafe", "nil", "int", "str"}
-ErrRoots == LET ks == IF Slice = "errorf" THEN ErrKinds ELSE QErrKinds IN
-            {<<>>} \cup {<<ErrOperand(k1, 10)>> : k1 \in ks} \cup {<<ErrOperand(k1, 10), ErrOperand(k2, 20)>> : k1 \in ks, k2 \in ks}
-ErrExpand(ts) == {Case("Errorf", f, ts, <<>>) : f \in (IF Slice = "errorf" THEN ErrFormats ELSE QErrFormats)}
-
-\* ---- slice "hook" (C17): error operands of every capability mix in every position, with a hook installed
-HookErr(kind, i) ==
-  CASE kind = "er"    -> ErObj(i)
-    [] kind = "erst"  -> TObj(i, {"ER", "ST"}, <<>>, <<>>, P(i), <<>>)
-    [] kind = "erfm"  -> TObj(i, {"ER", "FM"}, <<>>, <<SWrite(P(i + 5))>>, P(i), <<>>)
-    [] kind = "ersf"  -> TObj(i, {"ER", "SF"}, <<SSafeString(P(600 + i)), SUnsafeString(P(700 + i))>>, <<>>, P(i), <<>>)
-    [] kind = "ersm"  -> TObj(i, {"ER", "SM"}, <<>>, <<>>, P(i), <<>>)
-    [] kind = "ergs"  -> TObj(i, {"ER", "GS"}, <<>>, <<>>, P(i), <<>>)
-    [] kind = "ersv"  -> TObj(i, {"ER", "SV"}, <<>>, <<>>, P(i), <<>>)
-    [] kind = "erreg" -> TObj(i, {"ER", "REG"}, <<>>, <<>>, P(i), <<>>)
-    [] kind = "ernil" -> TObj(i, {"ER", "NILP"}, <<>>, <<>>, <<>>, <<>>)
-    [] kind = "erpan" -> TObj(i, {"ER"}, <<>>, <<>>, <<>>, <<TStr(i + 1, P(i + 1))>>)
-    [] kind = "st"    -> StObj(i)
-HookKinds == {"er", "erst", "erfm", "ersf", "ersm", "ergs", "ersv", "erreg", "ernil", "erpan", "st"}
-HookPos(pos, e) ==
-  CASE pos = "top"     -> <<e>>
-    [] pos = "safe"    -> <<TSafe(40, e)>>
-    [] pos = "unsafe"  -> <<TUnsafe(40, e)>>
-    [] pos = "slice"   -> <<TSlice(40, <<UInt(41), e>>)>>
-    [] pos = "mapval"  -> <<TMap(40, <<TInt(41, 1), e>>)>>
-    [] pos = "mapkey"  -> <<TMap(40, <<e, UInt(41)>>)>>
-    [] pos = "fieldE"  -> <<TStruct(40, <<e, UInt(41)>>, <<FALSE, FALSE>>)>>
-    [] pos = "fieldu"  -> <<TStruct(40, <<UInt(41), e>>, <<FALSE, TRUE>>)>>
-    [] pos = "ptr"     -> <<TPtrTo(42, TStruct(40, <<e>>, <<FALSE>>))>>
-    [] pos = "inUnsafe" -> <<TUnsafe(43, TSlice(40, <<e>>))>>
-HookPositions == {"top", "safe", "unsafe", "slice", "mapval", "mapkey", "fieldE", "fieldu", "ptr", "inUnsafe"}
-HookRoots == HookKinds \X HookPositions
-HookExpand(r) == LET ts == HookPos(r[2], HookErr(r[1], 10)) IN
-                 {Case("Sprintf", Around(f), ts, <<>>) : f \in {Fv, Fs, Fd, Fq, Fx, FplusV, FsharpV, F6v}}
-                 \cup {Case("Sprint", <<>>, ts, <<>>), Case("Errorf", Around(Fw), ts, <<>>), Case("Errorf", Fw \o Fw, ts \o ts, <<>>)}
-
-\* ---- slice "compose" (C08): redactables obtained from the library, printed again, concatenated, joined
-F5q == <<37, 53, 113>>   Fm8x == <<37, 45, 56, 120>>   Fp1s == <<37, 46, 49, 115>>
-ComposeFormats == {Fv, Fs, F5q, Fm8x, Fp1s, Fd, FplusV}
-KeyR == TRStr(3, <<107>>)                                      \* the redactable "k"
-RShape(sh, r) ==
-  CASE sh = "top"     -> r
-    [] sh = "slice"   -> TSlice(30, <<r>>)
-    [] sh = "mapval"  -> TMap(30, <<KeyR, r>>)
-    [] sh = "structE" -> TStruct(30, <<r>>, <<FALSE>>)
-    [] sh = "structu" -> TStruct(30, <<r>>, <<TRUE>>)
-    [] sh = "ptr"     -> TPtrTo(33, TStruct(30, <<r>>, <<FALSE>>))
-    [] sh = "deep"    -> TStruct(30, <<TSlice(34, <<r>>)>>, <<TRUE>>)
-RShapes == {"top", "slice", "mapval", "structE", "structu", "ptr", "deep"}
-\* what the statement says the reprint is: the punctuation of the shape around the unchanged redactable
-RWrap(sh, b, plus) ==
-  CASE sh = "top"     -> b
-    [] sh = "slice"   -> <<91>> \o b \o <<93>>
-    [] sh = "mapval"  -> MapOpen \o <<107, 58>> \o b \o <<93>>
-    [] sh = "structE" -> <<123>> \o (IF plus THEN <<65, 58>> ELSE <<>>) \o b \o <<125>>
-    [] sh = "structu" -> <<123>> \o (IF plus THEN <<97, 58>> ELSE <<>>) \o b \o <<125>>
-    [] sh = "ptr"     -> <<38, 123>> \o (IF plus THEN <<65, 58>> ELSE <<>>) \o b \o <<125>>
-    [] sh = "deep"    -> <<123>> \o (IF plus THEN <<97, 58>> ELSE <<>>) \o <<91>> \o b \o <<93, 125>>
-R0(p) == Out(Sprint(<<TStr(1, p)>>))                             \* a redactable obtained from the library
-JoinOf(d, a, b) == Out(SBRun(<<SPrint(<<TRStr(4, a)>>), SPrint(<<TRStr(5, d)>>), SPrint(<<TRStr(6, b)>>)>>))     \* redact.Join
-ComposeRoots == Pay(IF Slice = "compose" THEN 2 ELSE 1)
-ComposeDelims == {<<44>>, StartM \o <<44>> \o EndM, <<NL>>}
-ComposeExpand(p) ==
-  LET r == R0(p) IN
-  {Case("Sprintf", f, <<RShape(sh, TRStr(2, r))>>, <<>>) : f \in ComposeFormats, sh \in RShapes}
-  \cup {Case("Sprintf", Fv, <<RShape(sh, TRBytes(2, r))>>, <<>>) : sh \in RShapes}
-  \cup {Case("Sprint", <<>>, <<TRStr(2, r)>>, <<>>)}
-  \cup UNION {{Case("Sprintf", <<120>> \o Fv \o <<121>> \o Fs \o <<122>>, <<TRStr(2, r), TRStr(7, R0(q))>>, <<>>),
-               Case("Sprint", <<>>, <<TRStr(2, JoinOf(d, r, R0(q)))>>, <<>>),
-               Case("Sprintf", F5q, <<TSlice(30, <<TRStr(2, JoinOf(d, r, R0(q))), TRStr(7, r)>>)>>, <<>>)}
-              : q \in {<<>>, <<A>>, <<NL>>, StartM, <<A, 226>>}, d \in ComposeDelims}
-
-Roots     == CASE Slice = "smoke" -> SmokeRoots
-               [] Slice \in {"cls", "qcls"} -> ClsRoots
-               [] Slice = "wrap" -> WrapRoots
-               [] Slice \in {"bytes", "qbytes"} -> BytesRoots
-               [] Slice = "panic" -> PanicRoots
-               [] Slice \in {"errorf", "qerrorf"} -> ErrRoots
-               [] Slice = "hook" -> HookRoots
-               [] Slice \in {"compose", "qcompose"} -> ComposeRoots
-Expand(r) == CASE Slice = "smoke" -> SmokeExpand(r)
-               [] Slice \in {"cls", "qcls"} -> ClsExpand(r)
-               [] Slice = "wrap" -> WrapExpand(r)
-               [] Slice \in {"bytes", "qbytes"} -> BytesExpand(r)
-               [] Slice = "panic" -> PanicExpand(r)
-               [] Slice \in {"errorf", "qerrorf"} -> ErrExpand(r)
-               [] Slice = "hook" -> HookExpand(r)
-               [] Slice \in {"compose", "qcompose"} -> ComposeExpand(r)
-
----------------------------------------------------------------------------
-VARIABLE root
-allvars == <<c, lvl, root>>
-
-Init == lvl = 0 /\ c = NoCase /\ root \in Roots
-Next == lvl = 0 /\ lvl' = 1 /\ root' = root /\ c' \in Expand(root)
-Spec == Init /\ [][Next]_allvars
-
-\* the same argument list through the other three routes of C16
-RouteOp(k)  == IF k.e = "Sprint" THEN SPrint(k.ts) ELSE SPrintf(k.f, k.ts)
-RouteSB(k)  == SBRun(<<RouteOp(k)>>)                                              \* StringBuilder.Print / Printf
-RouteFn(k)  == Sprintfn(<<RouteOp(k)>>)                                           \* SafePrinter inside Sprintfn
-RouteSF(k)  == Sprint(<<TObj(990, {"SF"}, <<RouteOp(k)>>, <<>>, <<>>, <<>>)>>)    \* SafePrinter inside a SafeFormat method
-C16Holds(k, r) ==
-  (k.e \in {"Sprint", "Sprintf"}) =>
-    LET sb == RouteSB(k)  fn == RouteFn(k)  sf == RouteSF(k) IN
-    \* (an argument list whose printing panics out of Sprint is outside: inside a SafeFormat method the
-    \*  same panic meets one more catchPanic and is reported instead of propagating)
-    ~Exc(r) => /\ ~Exc(sb) /\ ~Exc(fn) /\ ~Exc(sf)
-                  /\ NormOf(Out(sb)) = NormOf(Out(r))
-                  /\ NormOf(Out(fn)) = NormOf(Out(r))
-                  /\ NormOf(Out(sf)) = NormOf(Out(r))
-
-Run(k) == CASE k.e = "Sprintf"  -> Sprintf(k.f, k.ts)
-            [] k.e = "Sprint"   -> Sprint(k.ts)
-            [] k.e = "Errorf"   -> Errorf(k.f, k.ts)
-            [] k.e = "Sprintfn" -> Sprintfn(k.scr)
+EXTENDS PSlices
 
 (***************************************************************************)
 (* The STATEMENT-level classification, independent of modes, overrides     *)
@@ -423,26 +101,6 @@ C17Holds(k, r) ==
           /\ \A i \in 1..Len(r.calls) : r.calls[i].m \in {"Hook", "Error"}
      ELSE \A i \in 1..Len(hc) : FALSE
 
-\* C08 on the slice "compose"
-C08Holds(k, r) ==
-  LET out == Out(r)  r0 == R0(root) IN
-  /\ WellFormed(out) /\ LineSafe(out)                                   \* closure: still a redactable
-  \* re-printing is identity, whatever the verb, flags and container
-  /\ \A sh \in RShapes :
-        (Len(k.ts) = 1 /\ k.e = "Sprintf" /\ k.ts[1] \in {RShape(sh, TRStr(2, r0)), RShape(sh, TRBytes(2, r0))})
-          => out = RWrap(sh, r0, k.f = FplusV)
-  /\ (Len(k.ts) = 1 /\ k.ts[1].k = "slice" /\ Len(k.ts[1].xs) = 2) =>
-        out = <<91>> \o k.ts[1].xs[1].b \o <<SP>> \o k.ts[1].xs[2].b \o <<93>>
-  /\ (Len(k.ts) = 1 /\ k.e = "Sprint" /\ k.ts[1].k = "rstring") =>
-        /\ out = k.ts[1].b                                               \* Sprint(Sprint(a)) = Sprint(a), joined ones too
-        /\ Redact(out) = Redact(k.ts[1].b)
-  \* formatting several redactables = concatenation with the literals
-  /\ (Len(k.ts) = 2) => /\ out = <<120>> \o k.ts[1].b \o <<121>> \o k.ts[2].b \o <<122>>
-                        /\ Redact(out) = <<120>> \o Redact(k.ts[1].b) \o <<121>> \o Redact(k.ts[2].b) \o <<122>>
-                        /\ (ValidUTF8(out) => Strip(out) = <<120>> \o Strip(k.ts[1].b) \o <<121>> \o Strip(k.ts[2].b) \o <<122>>)
-\* Join = plain concatenation with the delimiter (checked where the joined value is built)
-C08Join(d, a, b) == JoinOf(d, a, b) = a \o d \o b
-
 (***************************************************************************)
 (* ONE zero-arity definition refers to the printer operators: TLC's        *)
 (* start-up level analysis costs several seconds for each such definition. *)
@@ -462,10 +120,6 @@ Check == lvl = 1 =>
   /\ Holds("C11", (Slice = "panic") => C11Holds(c, r))
   /\ Holds("C15", (ok /\ Slice \in {"errorf", "qerrorf"}) => C15Holds(c, r))
   /\ Holds("C17", (ok /\ Slice = "hook") => C17Holds(c, r))
-  /\ Holds("C16", Routes => C16Holds(c, r))
-  /\ Holds("C08", (ok /\ Slice \in {"compose", "qcompose"}) => C08Holds(c, r))
-  /\ Holds("C08join", (Slice \in {"compose", "qcompose"} /\ c.e = "Sprint" /\ c.ts[1].id = 2 /\ Len(c.ts[1].b) = 0) =>
-              \A d \in ComposeDelims : \A q \in {<<>>, <<NL>>, StartM, <<A, 226>>} : C08Join(d, R0(root), R0(q)))
   /\ (EmitOn => PrintT(ToJson([c |-> c, exc |-> ~ok, out |-> IF ok THEN Out(r) ELSE <<>>, rt |-> r.rt,
                                 calls |-> r.calls, werr |-> r.wrappedErr])))
 =============================================================================
